@@ -358,6 +358,18 @@ func c15Reprs(a c15Alpha, idx []int) (names []string, builds []func() any) {
 	// a named slice type whose underlying type is []any: it can be read without any conversion
 	names = append(names, "named-[]any")
 	builds = append(builds, func() any { return univ.NamedAnys(gen()) })
+	// a fixed array whose element type is the empty interface: it can hold whatever the generic slice holds, nil included
+	names = append(names, "fixed-array-of-any")
+	builds = append(builds, func() any {
+		g := gen()
+		arr := reflect.New(reflect.ArrayOf(len(g), reflect.TypeOf((*any)(nil)).Elem())).Elem()
+		for i, x := range g {
+			if x != nil {
+				arr.Index(i).Set(reflect.ValueOf(x))
+			}
+		}
+		return arr.Interface()
+	})
 	if a.typed != nil {
 		names = append(names, "typed-slice")
 		builds = append(builds, func() any { return a.typed(gen()) })
